@@ -10,7 +10,7 @@ import (
 //verif:entry property=C13 tier=both bounds="bus on the durable-streams store (real client library over the model server): K publishes (optionally each under its own context, cancelled after the publish returned), the server answers one chosen append request with 503 (or none); delivery unaffected, that failure reported exactly once, the rejected event not in the log, the others in order" cover="rejected,all-ok" K_quick=3 K_thorough=4
 func harnessC13DurableRejectedAppend() {
 	K := vParam("K", 3)
-	st, err := New(vdsServer("c13"), "s")
+	st, err := New(vdsServer("c13"), "s", dsOpts()...)
 	vAssert(err == nil, "store-opens")
 	var reported []int
 	bus := eventbus.New(eventbus.WithStore(st), eventbus.WithPersistenceErrorHandler(func(ev any, t reflect.Type, err error) {
